@@ -345,6 +345,7 @@ pub struct Stats {
     pub verifies: u64,
     pub verify_backoffs: u64,
     pub verify_unlinked: u64,
+    pub verify_unlinked_other: u64,
     pub ingests: u64,
     pub max_levels: usize,
     pub max_files: usize,
@@ -853,6 +854,16 @@ impl<'a> Harness<'a> {
         let trash_before = self.list_dir("trash");
         let sst_before = self.list_dir("sst");
         let mani_before = self.list_dir("mani");
+        // what each fragment records as removed (read before the pass: processed fragments vanish)
+        let mut removed_by_fragment: BTreeMap<String, BTreeSet<String>> = BTreeMap::new();
+        if self.probes.files {
+            for f in crate::manifest::fragments(&self.root) {
+                if let Ok(txns) = crate::manifest::parse_fragment(&f) {
+                    let name = f.file_name().unwrap().to_string_lossy().to_string();
+                    removed_by_fragment.insert(name, txns.iter().skip(1).flat_map(|t| t.removed.iter().cloned()).collect());
+                }
+            }
+        }
         let opts = self.cfg.options(&self.root_str());
         let mut v = LsmVerifier::open(opts).map_err(|e| fail("op-error:verifier-open", format!("{e:?}")))?;
         let r = v.verify();
@@ -881,6 +892,22 @@ impl<'a> Harness<'a> {
             for g in gone {
                 if g == "MANIFEST" || g == "LOCKFILE" {
                     return Err(fail("files:verifier-removed-live-manifest", format!("verifier removed {g}")));
+                }
+            }
+            // the verifier unlinks only trash entries whose removal the manifest recorded and whose
+            // fragment it has verified (a verified fragment is unlinked before its files are)
+            let processed: BTreeSet<&String> = mani_before.difference(&mani_after).collect();
+            let recorded: BTreeSet<&String> = removed_by_fragment.iter().filter(|(f, _)| processed.contains(f)).flat_map(|(_, r)| r.iter()).collect();
+            for name in trash_before.difference(&trash_after) {
+                let Some(digest) = name.strip_suffix(".sst") else {
+                    self.stats.verify_unlinked_other += 1;
+                    continue;
+                };
+                if !recorded.contains(&digest.to_string()) {
+                    return Err(fail(
+                        "files:verifier-unlinked-unrecorded-trash",
+                        format!("a verifier pass unlinked trash/{name} although no fragment it processed in this pass ({processed:?}) records the removal of that sst"),
+                    ));
                 }
             }
             self.check_files()?;
@@ -1521,6 +1548,9 @@ pub fn label_stats(o: &mut Outcome, s: &Stats) {
     }
     if s.verify_unlinked > 0 {
         o.label("verifier-unlinked-files");
+    }
+    if s.verify_unlinked_other > 0 {
+        o.label("verifier-unlinked-non-sst-trash");
     }
     if s.gc_dropped_entries > 0 {
         o.label("gc-dropped-entries");
